@@ -136,6 +136,9 @@ structure Cfg where
   /-- pool: does the end-of-stream path (`_serve_requests` → `_drop_connection`) remove only the connection it was serving
   (the repaired code: by identity), or whatever `fd_to_conn` holds under that descriptor number by then (`false`) -/
   spare : Bool := true
+  /-- pool: does `close()` end the connections' streams (socket shutdown) BEFORE it joins the workers (the repaired code) -
+  so that a worker blocked in a read comes back - or only afterwards (`false`) -/
+  closeUnblocks : Bool := true
   deriving DecidableEq, Repr, Inhabited
 
 structure St where
@@ -294,12 +297,24 @@ def baseClose (s : St) : St :=
 /-- `ThreadPoolServer._drop_connection`: `del fd_to_conn[fd]`, `conn.close()` (the poll registration is not touched) -/
 def dropEffect (c : Cli) : Cli := if c.inFd then { endServe c with inFd := false } else c
 
-/-- `ThreadPoolServer.close()`: `Server.close`, join the poller, wake and join the workers, then drop every
-connection left in `fd_to_conn`; `none` = it does not return: `w.join()` waits for a worker that is blocked in
-`stream.read` on a client whose socket is only shut down *after* the joins -/
+/-- would `ThreadPoolServer.close()` have to wait for application code: a worker that sits in a service's blocking
+`on_disconnect` (it is joined), or a connection still open whose `on_disconnect` will block (it is called by `close()`
+itself, from the final loop) -/
+def hookHolds (c : Cli) : Bool := c.phase == .closing || (c.inFd && c.slowHook && c.connOpen)
+
+/-- `ThreadPoolServer.close()` does not return (yet): it waits for application code (`hookHolds`), or - the code that joins
+the workers BEFORE it touches the connections (`closeUnblocks = false`) - for a worker that is blocked in `stream.read` on
+a client that stays connected -/
+def closeWaits (s : St) : Bool :=
+  s.poolUp && (s.ids.any (fun k => hookHolds (s.cli k)) || (!s.cfg.closeUnblocks && !s.blocked.isEmpty))
+
+/-- `ThreadPoolServer.close()`: `Server.close`; the sockets of the connections in `fd_to_conn` are shut down (every client
+sees end-of-stream; a worker blocked in `stream.read` gets EOFError and drops its connection through its usual path);
+the poller and the workers are joined; every connection left in `fd_to_conn` is dropped (closed, `on_disconnect` run).
+`none` = it does not return in this state (`closeWaits`) -/
 def poolClose (s : St) : Option St :=
-  if s.poolUp && !s.blocked.isEmpty then none
-  else some { ((baseClose s).mapCli dropEffect) with poolUp := false }
+  if closeWaits s then none
+  else some { ((baseClose s).mapCli dropEffect) with poolUp := false, blocked := [] }
 
 /-! ### per-client serving -/
 
@@ -541,7 +556,7 @@ def callObs (c : Cli) (seq : Nat) : Obs :=
 
 /-- one client or administrator action, run to quiescence; `Err.valueError` = not an action of the
 alphabet in this state (unknown / reused client id, a client that already left, speaking after an
-incomplete frame); `Err.notModelled` = `ThreadPoolServer.close()` with a worker blocked in a read (it hangs) -/
+incomplete frame); `Err.notModelled` = `ThreadPoolServer.close()` in a state in which it does not return (`closeWaits`) -/
 def step (s : St) : Op → Except Err (St × Obs)
   | .connect k cred =>
     if (s.cli k).phase != .absent || (cred == .bad && !s.cfg.auth) then .error .valueError
